@@ -305,7 +305,10 @@ def shard_moments(rname):
 def shard_sine(arg):
     rname, iname, levels = arg
     res = core.Res()
-    for k, phi, a in itertools.product((1, 2), (0.0, 0.7), (1.0, -0.5, 2.0)):
+    combos = itertools.product((1, 2), (0.0, 0.7), (1.0, -0.5, 2.0))
+    if space.is_implicit(space.integrators()[iname]):
+        combos = [(1, 0.7, 1.0), (1, 0.0, -0.5)]        # dense linear algebra: the first wavelength only
+    for k, phi, a in combos:
         res.nontrivial += 1
         for s, w in check_sine(rname, iname, k, phi, a, levels, res):
             res.violation(s, w, {"kind": "sine", "recon": rname, "integrator": iname, "k": k, "phi": phi, "a": a, "levels": list(levels)})
@@ -343,7 +346,10 @@ def run(ctx):
     ctx.pmap("moments", shard_moments, ["extrapol1"] + space.X1_UNLIMITED)       # a stencil exists for the linear schemes only
     integs = ["rk3ssp", "rk4", "lsrk4"] + (["rk3_heun", "lsrk26bb"] if th else [])
     levels = (1, 2, 4, 8) if th else (1, 2, 4)
-    ctx.pmap("sine-ladder", shard_sine, [(r, i, levels) for r in space.X1_ALL for i in integs])
+    cfg_s = [(r, i, levels) for r in space.X1_ALL for i in integs]
+    # second-order implicit time integration (Crank-Nicolson, BDF2) is "high order" for the reconstructions of design order <= 2, backward Euler for order 1
+    cfg_s += [(r, i, (1, 2, 4)) for r in space.X1_ALL if design_order(r) <= 2 and not r.startswith("muscl") for i in (["cranknicolson", "gear"] + (["implicit"] if design_order(r) == 1 else []))]
+    ctx.pmap("sine-ladder", shard_sine, cfg_s)
     recs = ["extrapol1"] + (space.X1_MUSCL if th else ["muscl:minmod", "muscl:vanleer"])
     ns = (50, 100, 200, 400) if th else (50, 100, 200)
     cfg = [(pi, fl, r, i, ns) for pi in range(len(problems())) for fl in ("hlle", "hllc") for r in recs for i in (["rk3ssp", "rk2_heun"] if th else ["rk3ssp"])]
